@@ -77,6 +77,8 @@ def correspond(ctx, corr, model_ok):
     corr.count('reconnect with a partly reassembled frame, id used again', 4)
     corr.oracle_failures.extend(lease_reconnect_oracle())
     corr.count('requests waiting for a lease when the connection is replaced', 9)
+    corr.oracle_failures.extend(stubborn_response_oracle())
+    corr.count('request-response cancelled while the responder\'s handler task runs an awaited clean-up, id used again', 6)
     if model_ok:
         E.trace_corr(corr, runs, KEEP, KEYS, 'C10 table/cache key sets vs model/Endpoint.v')
     corr.rule = ('legal random histories of 4..20 actions; key sets of the stream table and the reassembly cache compared '
@@ -111,6 +113,8 @@ def replay(obj):
         return bool(c01.reconnect_oracle())
     if 'lease_reconnect_case' in case:
         return bool(lease_reconnect_oracle())
+    if 'stubborn_case' in case:
+        return bool(stubborn_response_oracle())
     if 'partial_case' in case:
         r = run_partial_request_cancel(*case['partial_case'])
         return bool(any(r['open'].values()) or any(r['partial'].values()) or r['escaped'])
@@ -321,4 +325,86 @@ def lease_reconnect_oracle():
             if bad:
                 out.append({'what': 'client honouring leases, requests waiting for a lease at a reconnect (%s): %s' % (cause, '; '.join(bad)),
                             'lease_reconnect_case': [cause, list(kinds)]})
+    return out
+
+
+# ---------------------------------------------------------------------------------------------
+# a request-response cancelled by the requester while the responder's handler is a task that does not end at once when
+# cancelled (it runs an awaited clean-up): the responder must not keep the stream for the duration of the clean-up, and the
+# id can be used again
+
+def run_stubborn_response(cleanup, lenreq):
+    import asyncio
+    from harness import sim, frames as FR
+    from rsocket.rsocket_server import RSocketServer
+    from rsocket.request_handler import BaseRequestHandler
+    from rsocket.payload import Payload
+    loop = sim.new_loop()
+    sim.patch_clock(loop)
+    T = sim.make_transport_class()
+    t = T(lenreq=lenreq)
+    calls = []
+
+    class H(BaseRequestHandler):
+        async def request_response(self, payload):
+            calls.append(bytes(payload.data))
+            if bytes(payload.data) == b'second':
+                f = asyncio.get_event_loop().create_future()
+                f.set_result(Payload(b'answer'))
+                return f
+
+            async def work():
+                try:
+                    await asyncio.sleep(1000)
+                except asyncio.CancelledError:
+                    if cleanup == 'awaits':
+                        await asyncio.sleep(5)          # an awaited clean-up: the task stays alive after cancel()
+                        raise
+                    if cleanup == 'swallows':
+                        await asyncio.sleep(5)
+                        return Payload(b'late')
+                    raise
+                return Payload(b'never')
+            return asyncio.ensure_future(work())
+    box = {}
+    try:
+        loop.run(lambda: box.setdefault('s', RSocketServer(t, handler_factory=H)))
+        loop.settle()
+        s = box['s']
+        t.inject_frame(FR.build({'t': 'RequestResponse', 'sid': 1, 'ign': False, 'follows': False, 'md': b'', 'd': b'first'}).serialize())
+        loop.settle()
+        registered = 1 in s._stream_control._streams
+        t.inject_frame(FR.build({'t': 'Cancel', 'sid': 1, 'ign': False}).serialize())
+        loop.settle()
+        after_cancel = 1 in s._stream_control._streams
+        t.inject_frame(FR.build({'t': 'RequestResponse', 'sid': 1, 'ign': False, 'follows': False, 'md': b'', 'd': b'second'}).serialize())
+        loop.settle()
+        loop.run_until(loop.time() + 10.0)
+        loop.settle()
+        wire = [sim.parse_sent(b) for b in t.sent]
+        return {'registered': registered, 'after_cancel': after_cancel, 'at_end': sorted(s._stream_control._streams),
+                'wire': [(f['t'], bytes(f.get('d') or b'')) for f in wire if f.get('sid') == 1], 'calls': calls}
+    finally:
+        loop.finish()
+
+
+def stubborn_response_oracle():
+    out = []
+    for cleanup in ('none', 'awaits', 'swallows'):
+        for lenreq in (False, True):
+            r = run_stubborn_response(cleanup, lenreq)
+            bad = None
+            if not r['registered']:
+                bad = 'the request was not registered at all (harness)'
+            elif r['after_cancel']:
+                bad = 'the responder still holds stream 1 after the requester\'s CANCEL was handled'
+            elif r['calls'] != [b'first', b'second']:
+                bad = 'the id was not usable again: handler calls %s' % r['calls']
+            elif ('Payload', b'answer') not in r['wire'] or any(t == 'Error' for t, _ in r['wire']):
+                bad = 'the second request on the id was not served: %s' % r['wire']
+            elif r['at_end']:
+                bad = 'streams left registered at the end: %s' % r['at_end']
+            if bad:
+                out.append({'what': 'request-response cancelled while the handler\'s task cleans up (%s): %s' % (cleanup, bad),
+                            'stubborn_case': [cleanup, lenreq]})
     return out
